@@ -37,7 +37,9 @@ RULE = ("solutions built with the repository's own constructors: every admissibl
         "consecutive / gapped / shuffled / huge time steps, state values from a boundary-heavy pool (0.0, -0.0, subnormals, "
         "DBL_MAX, 1e-5, 1e16, 1e22, 0.1, random 64-bit patterns, ints), optional date (years 1000..9999, with and without "
         "microseconds), computation time and processor name (XML-special, non-ASCII, blank); pretty and compact output; "
-        "dump->fromstring and write_to_file->open.  Plus constructor calls that must be rejected and mutated documents "
+        "dump->fromstring and write_to_file->open; in 40% of the cases a history AFTER Solution(...) was assembled: planning_problem_id / "
+        "vehicle_type / cost_function of a PlanningProblemSolution, computation time, processor name, date, scenario id re-assigned, the "
+        "list of planning problems re-set in another order (the written object is compared as it is when written).  Plus constructor calls that must be rejected and mutated documents "
         "(dropped/duplicated/renamed elements, bad number text, reordered trajectories, wrong ids) for the reader's error "
         "branches and the validator.  non-trivial = every case; distinct = distinct canonical JSON of the case")
 ASSUMPTIONS = [
@@ -55,7 +57,7 @@ ASSUMPTIONS = [
 TRUSTED = ["lxml/libxml2 XML Schema validator (the Lean validator is compared with it, not proved equal)"]
 REQUIRED_BUCKETS = ["single", "cooperative", "type:PM", "type:ST", "type:KS", "type:KST", "type:MB", "type:Input", "type:PMInput",
                     "unordered", "schema-checked", "schema-not-applicable", "file-path", "pretty", "compact", "mutant", "reject",
-                    "superset-state", "date", "computation-time", "processor-name", "setter-path"]
+                    "superset-state", "date", "computation-time", "processor-name", "setter-path", "post-edit", "post:pp_id", "post:reorder"]
 WORKERS = {"quick": 1, "thorough": 8}
 
 XSD_PATH = os.path.join(REPO, "commonroad", "scenario_definition", "xml_definition_files", "CommonRoadSolution_schema.xsd")
@@ -238,9 +240,43 @@ def gen_case(ctx, force_combo=None):
         ct = enc(abs(gen_value(r)) or 1.5)
         if (isinstance(ct, int) and ct == 0) or (not isinstance(ct, int) and dec(ct) == 0.0):
             ct = enc(0.25)
-    return {"kind": "solution", "scen": gen_scen(r, n > 1 and r.random() < 0.8), "pps": pps, "date": gen_date(r), "ct": ct,
+    case = {"kind": "solution", "scen": gen_scen(r, n > 1 and r.random() < 0.8), "pps": pps, "date": gen_date(r), "ct": ct,
             "proc": r.choice(PROC_NAMES) if r.random() < 0.6 else None, "pretty": r.random() < 0.5,
             "file": r.random() < 0.25, "mutseed": r.getrandbits(32)}
+    case["post"] = gen_post(r, case) if r.random() < 0.4 else []
+    return case
+
+
+def gen_post(r, case):
+    """A history AFTER the Solution object was assembled: public attributes / setters of the solution and of its
+    PlanningProblemSolution objects are re-assigned before writing (a solution is what it holds when it is written)."""
+    ops = []
+    n = len(case["pps"])
+    used = {p["id"] for p in case["pps"]}
+    for _ in range(r.choice([1, 1, 2, 3])):
+        k = r.randrange(9)
+        i = r.randrange(n)
+        if k in (0, 1):       # planning_problem_id re-assigned (kept distinct)
+            new = r.choice([x for x in [4, 5, 6, 100, 200, 31337, 10 ** 9, -1, 8] if x not in used])
+            used.add(new)
+            ops.append(["pp_id", i, new])
+        elif k == 2:
+            ops.append(["vtype", i, r.randint(1, 4)])
+        elif k == 3:
+            ops.append(["cost", i, r.choice(PM_COSTS if case["pps"][i]["model"] == "PM" else ALL_COSTS)])
+        elif k == 4:
+            ops.append(["ct", r.choice([None, enc(0.5), enc(abs(gen_value(r, False)) or 2.5), 3])])
+        elif k == 5:
+            ops.append(["proc", r.choice(PROC_NAMES + [None])])
+        elif k == 6:
+            ops.append(["date", gen_date(r)])
+        elif k == 7:
+            ops.append(["scen", gen_scen(r, case["scen"]["cooperative"])])
+        else:
+            perm = list(range(n))
+            r.shuffle(perm)
+            ops.append(["reorder", perm])
+    return [o for o in ops if not (o[0] == "ct" and o[1] is not None and dec(o[1]) == 0)]
 
 
 def _expected_ttype(p):
@@ -349,7 +385,34 @@ def build_solution(case):
     sid = ScenarioID(s["cooperative"], s["country"], s["map"], s["map_id"], s["config"], s["behavior"], s["pred"], s["version"])
     date = datetime(*case["date"]) if case["date"] is not None else None
     ct = dec(case["ct"]) if case["ct"] is not None else None
-    return Solution(sid, [build_pps(p) for p in case["pps"]], date, ct, case["proc"])
+    sol = Solution(sid, [build_pps(p) for p in case["pps"]], date, ct, case["proc"])
+    apply_post(sol, case.get("post") or [])
+    return sol
+
+
+def apply_post(sol, ops):
+    from commonroad.common.solution import CostFunction, VehicleType
+    from commonroad.scenario.scenario import ScenarioID
+    for op in ops:
+        pps = sol.planning_problem_solutions
+        if op[0] == "pp_id":
+            pps[op[1]].planning_problem_id = op[2]
+        elif op[0] == "vtype":
+            pps[op[1]].vehicle_type = VehicleType(op[2])
+        elif op[0] == "cost":
+            pps[op[1]].cost_function = CostFunction[op[2]]
+        elif op[0] == "ct":
+            sol.computation_time = dec(op[1]) if op[1] is not None else None
+        elif op[0] == "proc":
+            sol.processor_name = op[1]
+        elif op[0] == "date":
+            sol.date = datetime(*op[1]) if op[1] is not None else None
+        elif op[0] == "scen":
+            s = op[1]
+            sol.scenario_id = ScenarioID(s["cooperative"], s["country"], s["map"], s["map_id"], s["config"], s["behavior"],
+                                         s["pred"], s["version"])
+        elif op[0] == "reorder":
+            sol.planning_problem_solutions = [pps[j] for j in op[1]]
 
 
 # ------------------------------------------------------------------------------------------------ canonical forms
@@ -820,7 +883,10 @@ def run_solution(ctx, case, model=True):
     types = [t.name for t in sol.trajectory_types]
     ctx.tag("single" if len(types) == 1 else "cooperative", *["type:" + t for t in set(types)])
     ctx.tag("pretty" if case["pretty"] else "compact")
-    if any(p["cls"] not in STATE_CLASS.values() or STATE_CLASS[t] != p["cls"] for p, t in zip(case["pps"], types)):
+    for op in case.get("post") or []:
+        ctx.tag("post-edit", "post:" + op[0])
+    if not any(op[0] == "reorder" for op in case.get("post") or []) and \
+            any(p["cls"] not in STATE_CLASS.values() or STATE_CLASS[t] != p["cls"] for p, t in zip(case["pps"], types)):
         ctx.tag("superset-state")
     if any([s.time_step for s in p.trajectory.state_list] != sorted(s.time_step for s in p.trajectory.state_list)
            for p in sol.planning_problem_solutions):
@@ -968,6 +1034,18 @@ def shrink(case, key):
     cur = copy.deepcopy(case)
     if not still(cur):
         return case
+    for i in range(len(cur.get("post") or []) - 1, -1, -1):
+        cand = copy.deepcopy(cur)
+        del cand["post"][i]
+        if still(cand):
+            cur = cand
+    if cur.get("post"):          # the remaining edits refer to planning problems by position: keep the list as it is
+        for k in ("date", "ct", "proc"):
+            cand = copy.deepcopy(cur)
+            cand[k] = None
+            if still(cand):
+                cur = cand
+        return cur
     for i in range(len(cur["pps"]) - 1, -1, -1):
         if len(cur["pps"]) > 1:
             cand = copy.deepcopy(cur)
